@@ -29,3 +29,16 @@ Example C01_runs :
                     108 :: 102 :: 112 :: 32 :: 120 :: 32 :: 35 :: 32 :: 120 :: 32 :: 124 :: 32 :: 99 :: nil)) = Done p
      /\ eval_f 50 (pf_form p) = Some b /\ b = Nd T 1 (Nd T 3 F).
 Proof. eexists. eexists. split; [vm_compute; reflexivity|]. split; vm_compute; reflexivity. Qed.
+
+(** "convergent lfp/gfp": for every text whose parsed tree has only positive fixed-point binders (the syntactic criterion of C06,
+    nested and mixed fixed points included) the solver does return a diagram, and it is the documented meaning *)
+From Rsbdd Require Import Lang.Mono Lang.FixNested Syntax.Parser Syntax.Printer.
+Theorem C01_positive_total uc ord txt p : parsed_formula uc ord txt = Done p -> posfix (pf_form p) = true ->
+  exists n b, eval_f n (pf_form p) = Some b /\ Den empty (pf_form p) (bden b) /\ robdd b.
+Proof.
+  unfold parsed_formula. destruct (tokenize uc ord txt) as [ts|]; [|discriminate].
+  intros Hp Hpf. apply posfix_evaluates; [|exact Hpf].
+  unfold parsed_of_tokens in Hp. destruct (parse ts) as [f r| |] eqn:Hpar; try discriminate.
+  destruct (parse_vars ts f r Hpar) as [Hns _]. inversion Hp; subst p. exact Hns.
+Qed.
+Print Assumptions C01_positive_total.
